@@ -2,6 +2,7 @@
 
 //! Analyze whether the table is ordered by some keys.
 
+use super::plan::join_type_is;
 use super::*;
 
 /// The data type of order analysis.
@@ -41,6 +42,14 @@ pub fn analyze_order(egraph: &EGraph, enode: &Expr) -> OrderKey {
     }
 }
 
+/// Join types the merge join executor implements (semi and anti joins are hash or nested-loop joins).
+const MERGE_JOIN_TYPES: &[Expr] = &[
+    Expr::Inner,
+    Expr::LeftOuter,
+    Expr::RightOuter,
+    Expr::FullOuter,
+];
+
 #[rustfmt::skip]
 pub fn order_rules() -> Vec<Rewrite> { vec![
     rw!("useless-order";
@@ -52,6 +61,7 @@ pub fn order_rules() -> Vec<Rewrite> { vec![
         "(mergejoin ?type ?cond ?lkey ?rkey ?left ?right)"
         if is_orderby("?lkey", "?left")
         if is_orderby("?rkey", "?right")
+        if join_type_is("?type", MERGE_JOIN_TYPES)
     ),
     rw!("sort-agg";
         "(hashagg ?keys ?aggs ?child)" =>
